@@ -460,7 +460,7 @@ pub fn run_case(id: &str, c: &FxCase, out: &mut String) {
                 security: Some("FOO".to_string()),
                 trade_date: Some(date_from_jd(rw.trade)),
                 settlement_date: Some(date_from_jd(rw.settle)),
-                action: Some(TxAction::Buy),
+                action: Some(if i % 2 == 0 { TxAction::Buy } else { TxAction::Sell }),
                 shares: Some(dec("10")),
                 amount_per_share: Some(dec("5")),
                 commission: Some(dec("1")),
@@ -478,8 +478,24 @@ pub fn run_case(id: &str, c: &FxCase, out: &mut String) {
                     Ok(tx) => match tx.action_specifics {
                         TxActionSpecifics::Buy(b) => {
                             let t = &b.tx_currency_and_rate;
+                            // the commission's currency and rate as the ledger reads them
+                            // (`commission_currency_and_rate()`), "-" when no separate one is given
                             let (cc, cr) = match &b.separate_commission_currency {
-                                Some(x) => (x.currency.as_str().to_string(), x.exchange_rate.to_string()),
+                                Some(_) => {
+                                    let x = b.commission_currency_and_rate();
+                                    (x.currency.as_str().to_string(), x.exchange_rate.to_string())
+                                }
+                                None => ("-".to_string(), "-".to_string()),
+                            };
+                            format!("ok {} {} {} {}", t.currency.as_str(), *t.exchange_rate, cc, cr)
+                        }
+                        TxActionSpecifics::Sell(b) => {
+                            let t = &b.tx_currency_and_rate;
+                            let (cc, cr) = match &b.separate_commission_currency {
+                                Some(_) => {
+                                    let x = b.commission_currency_and_rate();
+                                    (x.currency.as_str().to_string(), x.exchange_rate.to_string())
+                                }
                                 None => ("-".to_string(), "-".to_string()),
                             };
                             format!("ok {} {} {} {}", t.currency.as_str(), *t.exchange_rate, cc, cr)
